@@ -309,7 +309,60 @@ def rule_nonce(ctx):
               "the connection is torn down (fresh counters on the next one)")
 
 
+def rule_write_history(ctx):
+    """the noise layer's stream callback over a history of WRITE events in which the lower layer refuses the first
+    segment: every event takes one segment from the stream and hands that one down - a refused segment is gone (C12.nonce
+    says what that means for the connection), it must not be kept and put in front of the next sender's segment, which
+    would leave every later send one segment behind for good"""
+    from ..absint import _Raise, C_NONE, flat_effects, NeedAtom, Budget, DomainGrew
+    from . import c04
+    repo = ctx.repo
+    roles = c04.noise_roles(repo)
+    cls = repo.cls(c04.NOISE, c04.CN)
+    if not roles.get("stream_cb") or not roles.get("stream"):
+        ctx.undecided("C12.drain", where(c04.NOISE, c04.CN, None), "write events after a refused segment", "the noise layer's parts were not identified")
+        return
+    fn = repo.method(c04.NOISE, c04.CN, roles["stream_cb"])
+    w = where(c04.NOISE, c04.CN + "." + roles["stream_cb"], fn.lineno)
+    st = {"taken": 0, "down": [], "refuse": True}
+    box = {}
+
+    def get_segment(itp, recv, a, k, env, d, e):
+        st["taken"] += 1
+        return ("ext", "SEG%d" % st["taken"], [])
+
+    def lower(itp, recv, a, k, env, d, e):
+        st["down"].append(a[0] if a else C_NONE)
+        if st["refuse"]:
+            st["refuse"] = False
+            raise _Raise(("ext", "ValueError", []), "ValueError: the lower layer refuses the segment")
+        return C_NONE
+    it, layer, _c = c04._noise_layer(repo, roles, extra_hooks={"ext:stream.get_write_segment": get_segment})
+    it.hooks["method:toLower"] = lower
+    ev = c04._const_expr(it, cls, "BlockingQueueSegmentedStream.EVENT_WRITE")
+    outcomes = []
+    try:
+        for _i in range(3):
+            try:
+                it.method_call(layer, roles["stream_cb"], [ev], {}, {"@module": cls.module, "@owner": cls}, 0, None)
+                outcomes.append("ok")
+            except _Raise as r:
+                outcomes.append("raised")
+    except (NeedAtom, Budget, DomainGrew) as x:
+        ctx.undecided("C12.drain", w, "write events after a refused segment", "could not be executed: %s" % (x,))
+        return
+    want = [("ext", "SEG%d" % i, []) for i in (1, 2, 3)]
+    if st["taken"] == 0:
+        ctx.undecided("C12.drain", w, "write events after a refused segment", "the callback never asked the stream for a segment")
+        return
+    shown = [v[1] if v[0] == "ext" else str(v)[:20] for v in st["down"]]
+    ctx.check("C12.drain", st["down"] == want and outcomes == ["raised", "ok", "ok"] and st["taken"] == 3, w, "write events after a refused segment",
+              "three write events, the lower layer refuses the first segment: handed down %s (outcomes %s, %d segment(s) taken from the stream) - every event must hand down the segment it takes from the stream; a kept segment goes out in place of the next sender's, whose own segment stays behind in the stream for good" % (shown, outcomes, st["taken"]),
+              "each event hands down the segment it took: SEG1 (refused, error to the caller), SEG2, SEG3")
+
+
 def run(ctx):
+    ctx.guarded("C12.drain", rule_write_history, ctx)
     ctx.guarded("C12.rel", rule_rel, ctx)
     ctx.guarded("C12.rel", rule_recover, ctx)
     ctx.guarded("C12.drain", rule_drain, ctx)
